@@ -539,7 +539,11 @@ func (c *c03case) runAll(cx *lib.Ctx) {
 				res.Count("check:" + name)
 				switch {
 				case (no.panicked != nil) != (jo.panicked != nil):
-					res.Fail(lib.Failure{Kind: "oracle", Key: name + ":panic-on-one-side", Desc: "decoding panics for one syntax only", Input: in(name), Impl: "native: " + describe(no) + "\njson: " + describe(jo)})
+					pk := no.panicked
+					if pk == nil {
+						pk = jo.panicked
+					}
+					res.Fail(lib.Failure{Kind: "oracle", Key: name + ":panic-on-one-side:" + decgen.PanicKey(pk), Desc: "decoding panics for one syntax only", Input: in(name), Impl: "native: " + describe(no) + "\njson: " + describe(jo)})
 				case no.panicked != nil:
 					res.Count("both-panic(recorded C08 defect)")
 				case no.diags.HasErrors() != jo.diags.HasErrors():
